@@ -1,6 +1,7 @@
 package storesim
 
 import (
+	"verif/engines/knobs"
 	"context"
 	"encoding/json"
 	"errors"
@@ -151,6 +152,8 @@ func genC01(tier string, run int, r *simcore.Rand) *harness.Plan {
 }
 
 func (e engine) Exec(rc *harness.RunCtx, p *harness.Plan) (out *harness.Outcome) {
+	knobsDone := knobs.Apply(p)
+	defer func() { knobsDone(out) }()
 	defer func() {
 		if r := recover(); r != nil {
 			if r == errStepBudget {
